@@ -50,6 +50,8 @@ func init() {
 }
 
 func runC08(c *Ctx, r *Report) {
+	r.Rule("C08/rpc-no-consume", "sendRPC and what it calls never take output out of the channel's queue: the NETCONF reader is the only consumer", 1)
+	checkRPCDoesNotConsume(c, r, "C08/rpc-no-consume")
 	importFoundation(c, r, "C08", "netconf-reader-lifecycle")
 	r.Rule("C08/operation-constructed", "every rpc is sent with operation options built by NewOperation (a zero-value struct has Timeout 0 = maximum: a call whose reply never comes would not return)", 4)
 	checkOperationConstructed(c, r, "C08/operation-constructed")
